@@ -102,8 +102,24 @@ done:
   return 1;
 }
 
+/* s5e ss w h seed kind mode sseed ri : entropy coding alone (formula coefficients through jpeg_write_coefficients, the C03 builder):
+   baseline, optimised, progressive with jpeg_simple_progression or a seeded scan script (bands of every length, successive
+   approximation), arithmetic; result = digest of the JPEG */
+static int c05_s5e(toks_t *t)
+{
+  c03_job j; unsigned char *jp = NULL; unsigned long n = 0, i; int err = 0; unsigned long long h = 14695981039346656037ULL;
+  memset(&j, 0, sizeof(j));
+  j.ss = (int)tl(t, 1); j.w = (int)tl(t, 2); j.h = (int)tl(t, 3); j.seed = (unsigned long long)tll(t, 4); j.kind = (int)tl(t, 5); j.mode = (int)tl(t, 6);
+  j.sseed = (unsigned long long)tll(t, 7); j.ri = (int)tl(t, 8); j.prec = 8; j.nc = j.ss == 3 ? 1 : 3;
+  if (!c03_build(&j, &jp, &n, &err)) { printf("R err build %d\n", err); return 1; }
+  for (i = 0; i < n; i++) { h ^= jp[i]; h *= 1099511628211ULL; }
+  printf("R %lu %llu\n", n, h); free(jp);
+  return 1;
+}
+
 static int dispatch_c05(toks_t *t)
 {
+  if (!strcmp(t->tok[0], "s5e") && t->n >= 9) return c05_s5e(t);
   if (!strcmp(t->tok[0], "s5c") && t->n >= 11) return c05_s5c(t);
   if (!strcmp(t->tok[0], "s5d") && t->n >= 11) return c05_s5d(t);
   if (!strcmp(t->tok[0], "s5y") && t->n >= 7) return c05_s5y(t);
